@@ -12,13 +12,14 @@ LEVEL_TEXT = ("Lean 4 theorems for every bit stride b dividing 64, every length 
               "sliding_window(w)[i] = (stream >> b*i) mod 2^(w*b) for every w with w*b <= 64, including windows that straddle a "
               "register boundary. The model is tied to bitarray.py by a correspondence check over all b, lengths 0..3*(64/b)+3, "
               "all window sizes, every integer input dtype.")
-LEVEL_NOTE = ("Trusted: Lean kernel (+ standard axioms), the hand-written model of bitarray.py (tied by differential correspondence), "
+LEVEL_NOTE = ("Trusted: Lean kernel (+ standard axioms), the hand-written model of bitarray.py (tied by differential correspondence; the "
+              "addressing arithmetic of __getitem__ is kernel K11, regenerated from the source on every run and bridged), "
               "numpy uint64 shift semantics (shift >= 64 gives 0; validated). Windows wider than the array (w > len) and integer "
               "positions outside [0, len) are outside the property's statement and not judged.")
-TECHNIQUE = "Lean 4 proof (Nat bit arithmetic) of model = digits-of-one-number spec; model/implementation correspondence"
+TECHNIQUE = "Lean 4 proof (Nat bit arithmetic) of model = digits-of-one-number spec; kernel K11 from source; model/implementation correspondence"
 DESIGN_REF = "7"
 LEAN_MODULES = ["NpsVerif.Props.C13"]
-KERNELS = ()
+KERNELS = ("bit_addr",)
 RULE = ("cases = bit stride b in {1,2,4,8,16,32} x length (0 .. 3*(64/b)+3, so partial last registers and register-straddling "
         "windows occur) x input integer dtype x value pattern (random / all-max / all-zero / alternating) x window sizes x position "
         "lists with repeats; distinct = distinct (b, values, windows, positions); non-trivial = length >= 1")
